@@ -230,3 +230,58 @@ func FirstBig(xs []int, lim int) int {
 	}
 	return -seen
 }
+
+// recursive closures over captured mutable state (translated to go_rec)
+func RecSum(xs []int) int {
+	total := 0
+	var walk func(i int)
+	walk = func(i int) {
+		if i >= len(xs) {
+			return
+		}
+		total += xs[i]
+		walk(i + 1)
+	}
+	walk(0)
+	return total
+}
+
+// in-order traversal of a binary tree given by child indices (-1: none); two parameters,
+// two captured variables, an early return
+func TreeOrder(left, right []int, root int) ([]int, int) {
+	order := []int{}
+	depthMax := 0
+	var visit func(n, depth int)
+	visit = func(n, depth int) {
+		if n < 0 || n >= len(left) {
+			return
+		}
+		if depth > depthMax {
+			depthMax = depth
+		}
+		visit(left[n], depth+1)
+		order = append(order, n)
+		visit(right[n], depth+1)
+	}
+	visit(root, 0)
+	return order, depthMax
+}
+
+// depth-first search over adjacency lists adj[off[n]:off[n+1]]: the recursive call stands
+// inside a loop, the visited set is a captured slice updated in place
+func Reach(off, adj []int, root int) []int {
+	seen := make([]bool, len(off)-1)
+	out := []int{}
+	var visit func(n int)
+	visit = func(n int) {
+		seen[n] = true
+		out = append(out, n)
+		for i := off[n]; i < off[n+1]; i++ {
+			if !seen[adj[i]] {
+				visit(adj[i])
+			}
+		}
+	}
+	visit(root)
+	return out
+}
